@@ -34,6 +34,9 @@ pub struct TxDesc {
     pub edit: Option<String>,
     #[serde(default)]
     pub data: Option<String>,
+    /// fee left to the block producer; outputs with amount 0 share what remains equally
+    #[serde(default)]
+    pub fee: u64,
 }
 
 #[derive(Clone)]
@@ -161,10 +164,30 @@ impl LedgerWorld {
                 .ok_or_else(|| format!("unknown output {}", n))?;
             tx.add_from_slip(info.slip.clone());
         }
+        let total_in: u64 = tx.from.iter().map(|s| s.amount).sum();
+        let explicit: u64 = d.outs.iter().map(|(_, a)| *a).sum();
+        let zeros = d.outs.iter().filter(|(_, a)| *a == 0).count() as u64;
+        let mut rest = 0u64;
+        if zeros > 0 {
+            if total_in < d.fee + explicit + zeros {
+                return Err(format!("inputs {} too small for fee {} + outputs", total_in, d.fee));
+            }
+            rest = total_in - d.fee - explicit;
+        }
+        let mut zi = 0u64;
         for (owner, amt) in d.outs.iter() {
             let mut o = Slip::default();
             o.public_key = self.keys.get(owner).ok_or("unknown owner")?.public;
-            o.amount = *amt;
+            o.amount = if *amt == 0 && zeros > 0 {
+                zi += 1;
+                if zi == zeros {
+                    rest - (rest / zeros) * (zeros - 1)
+                } else {
+                    rest / zeros
+                }
+            } else {
+                *amt
+            };
             o.slip_type = SlipType::Normal;
             tx.add_to_slip(o);
         }
@@ -197,6 +220,7 @@ impl LedgerWorld {
             "type_issuance" => tx.transaction_type = TransactionType::Issuance,
             "type_spv" => tx.transaction_type = TransactionType::SPV,
             "type_vip" => tx.transaction_type = TransactionType::Vip,
+            "type_stake" => tx.transaction_type = TransactionType::BlockStake,
             // the first input is repeated
             "dup_input" => {
                 let s = tx.from[0].clone();
